@@ -512,7 +512,7 @@ func (w *World) httpDo(sym, method, path string, body string, hdr map[string]str
 	if _, ok := w.https[sym]; ok {
 		return false
 	}
-	var rd io.Reader
+	var rd io.Reader = http.NoBody
 	if body != "" {
 		rd = strings.NewReader(body)
 	}
